@@ -28,6 +28,13 @@ def check_C18(run):
         if r.get("gen") == "ok" and "imports" in r:
             n += 1
             kinds.add(("struct", r["kind"], tuple(r["imports"]), tuple(r["decls"])))
+    import fam_text
+    wobs = fam_text.witness(run)
+    if wobs:
+        for r in read_ndjson(wobs):
+            if r["gen"] == "ok":
+                n += 1
+                kinds.add(("witness", tuple(r["imports"]), tuple(r["decls"])))
     summ3, obs3 = fam_calls.pipeline(run)
     for r in read_ndjson(obs3):
         if not r["exec"] and r["gen"] == "ok":
